@@ -154,6 +154,37 @@ def safety(lab, home, before, label):
     return probs
 
 
+def fix_after_failed_case(lab, K):
+    """A commit that does not compile and is not reverted (its author has no e-mail address) leaves the marker 'failed' and the
+    directory 'next'; then a compiling commit is pushed and the run that processes it is killed before command K; the next
+    undisturbed run must make the compiling revision current."""
+    home = lab.fresh('faf%d' % K)
+    events, probs, live = [], [], []
+    lab.sh(home, 'cd $HOME/netspoc && git pull --quiet && echo "BAD_SYNTAX 1" > topology && git add --all && '
+                 'git -c user.email= commit --quiet -m bad && git push --quiet')
+    rc0, _ = lab.run(home, 0)
+    events.append('commit B1 (does not compile, author without e-mail address: not reverted); undisturbed run (rc=%s)' % rc0)
+    probs += safety(lab, home, 'p1', 'after the failed compile')
+    fix = lab.commit(home, 'network:n1 = { ip = 10.1.1.0/24; } # FIX')
+    rc, n = lab.run(home, K)
+    if n < K:
+        shutil.rmtree(home, ignore_errors=True)
+        return None
+    events.append('commit FIX (compiles); newpolicy.sh killed before command %d' % K)
+    probs += safety(lab, home, 'p1', 'after the kill')
+    cur1 = lab.current(home) or 'p1'
+    rc2, _ = lab.run(home, 0)
+    events.append('undisturbed run (rc=%s)' % rc2)
+    probs += safety(lab, home, cur1, 'after the undisturbed run')
+    cur2 = lab.current(home)
+    remote = lab.sh(home, 'git -C $HOME/netspoc.git rev-parse master').stdout.strip()
+    local = lab.sh(home, 'git -C $HOME/policies/%s/src rev-parse HEAD' % cur2).stdout.strip() if cur2 else ''
+    if cur2 is None or not (local == remote or lab.compiled_from(home, cur2) == remote):
+        live.append('after the next undisturbed run current (%s) is not the newest compiling revision' % cur2)
+    shutil.rmtree(home, ignore_errors=True)
+    return dict(K=K, variant='fix-after-failed', events=events, problems=probs, liveness=live, rc=rc2)
+
+
 def kill_case(lab, K, variant):
     home = lab.fresh('%s%d' % (variant, K))
     events, probs = [], []
@@ -299,6 +330,8 @@ def main(ctx):
                 jobs.append((K, 'bad'))
         with ThreadPoolExecutor(12) as ex:
             res = [r for r in ex.map(lambda j: kill_case(lab, *j), jobs) if r]
+        with ThreadPoolExecutor(12) as ex:
+            res += [r for r in ex.map(lambda k: fix_after_failed_case(lab, k), [K for K in range(1, N + 1) if not quick or K % 3 == 2 or K > N - 12]) if r]
         res += [concurrent_case(lab, i) for i in range(2)]
         with ThreadPoolExecutor(12) as ex:
             res += [r for r in ex.map(lambda k: hold_case(lab, k), [K for K in range(1, N + 1) if not quick or K % 3 == 1]) if r]
@@ -313,7 +346,7 @@ def main(ctx):
                                     finding='F-C19-1' if r['variant'] == 'c1' else None, key='live'))
         cov = dict(evaluations=len(res), distinct_nontrivial=len(set((r['K'], r['variant']) for r in res)),
                    rule='one run of newpolicy.sh has %d simple commands; kill before each x {no further commit, a further good commit, '
-                        'a commit that does not compile (sampled in quick)} followed by an undisturbed run; two simultaneous invocations; '
+                        'a commit that does not compile (sampled in quick)} followed by an undisturbed run; the same after an unreverted failed compile that left the marker failed and a compiling commit (sampled in quick); two simultaneous invocations; '
                         'a second invocation while the first is parked before command K (sampled in quick), which must not touch the database when it finds the lock taken; '
                         'distinct by (kill position, history)' % N,
                    traces_validated_against_impl=len(res), simple_commands=N,
